@@ -188,13 +188,17 @@ _shm_focus_request = st.builds(
     st.sampled_from(["absent", "absent", "absent", "0", "hdr", "nonnumeric", "negative", "huge", "nonutf8"]),
     st.sampled_from(["absent", "absent", "0", "64", "nonnumeric", "negative", "huge"]),
 )
+_SHM_INPUTS = ["shm_valid", "shm_short_len", "shm_schema_only", "shm_garbage", "shm_no_length", "shm_bad_offset", "shm_unknown_offset"]
 # a request naming a registered header-less stream method, followed — as StreamSession does — by the input stream
 headerless_cases = st.fixed_dictionaries(
     {"t": st.sampled_from(["pipe", "unix"]), "m": st.sampled_from(_HEADERLESS_STREAMS),
      "req": st.sampled_from([0, 1, 1, 1]).flatmap(
          lambda i: [_request, st.builds(lambda r, md: {**r, "md": md, "other": [], "extra": [], "cols": {"kind": "params"}, "rows": 1},
                                         _request, st.builds(_focus, _md, st.sampled_from(["rv", "rv", "pv", "trace", "shm_name"])))][i]),
-     "input": st.sampled_from(["tick", "tick", "two", "eos_only", "typed"]), "nonce": st.integers(0, 2**40)}
+     "input": st.sampled_from(["tick", "tick", "two", "eos_only", "typed", *_SHM_INPUTS]), "nonce": st.integers(0, 2**40),
+     # how the method's init behaves when the request does get through, and whether an earlier request on the
+     # connection already attached the client's segment
+     "init": st.sampled_from(["ok", "ok", "raise"]), "warm": st.booleans()}
 )
 sequence_cases = st.fixed_dictionaries(
     {"t": st.sampled_from(["pipe", "unix"]),
@@ -342,6 +346,7 @@ def _columns(req: dict[str, Any], rows: int) -> tuple[pa.Schema, list[pa.Array]]
                 arrays.append(_array(ty, [_value(ty, spec["v"] + r) for r in range(rows)]))
                 fields.append(pa.field(name, _TYPES[ty][0], nullable=True))
                 continue
+            val = req.get("override", {}).get(name, val)  # e.g. init="raise": a well-formed request whose init fails
             if pa.types.is_dictionary(t):
                 arrays.append(pa.array([val] * rows, type=pa.utf8()).dictionary_encode().cast(t))
             else:
@@ -390,6 +395,45 @@ def _empty_input_stream() -> bytes:
             pass
         _EMPTY_INPUT = buf.getvalue()
     return _EMPTY_INPUT
+
+
+def _shm_pointer_input(how: str, m: str, segs: _Segments) -> bytes:
+    """Input stream whose only batch is a zero-row *pointer* into the client-owned segment the request advertised.
+
+    ``how`` picks what the pointed-to region holds and how the pointer describes it: a valid one-batch stream, the same
+    with the length ending inside the batch body, a schema-only stream, garbage, or a pointer lacking its length /
+    carrying an unusable offset.  Whatever the server makes of it, the input stream must be consumed to its end."""
+    segs.real_name()
+    seg = segs.real
+    assert seg is not None
+    schema = pa.schema([]) if m == "prod" else pa.schema([pa.field("v", pa.int64())])
+    payload = pa.record_batch([pa.array(list(range(40)), pa.int64())], schema=pa.schema([pa.field("v", pa.int64())]))
+    res = seg.allocate_and_write(payload)
+    if res is None:
+        raise AssertionError("segment full")
+    off, length = res
+    md: dict[bytes, bytes] = {b"vgi_rpc.shm_offset": str(off).encode(), b"vgi_rpc.shm_length": str(length).encode()}
+    if how == "shm_short_len":
+        md[b"vgi_rpc.shm_length"] = str(length - 24).encode()
+    elif how == "shm_schema_only":
+        b = io.BytesIO()
+        with ipc.new_stream(b, payload.schema):
+            pass
+        raw = b.getvalue()
+        seg.buf[off:off + len(raw)] = raw
+        md[b"vgi_rpc.shm_length"] = str(len(raw)).encode()
+    elif how == "shm_garbage":
+        seg.buf[off:off + length] = b"\xff" * length
+    elif how == "shm_no_length":
+        del md[b"vgi_rpc.shm_length"]
+    elif how == "shm_bad_offset":
+        md[b"vgi_rpc.shm_offset"] = b"12x"
+    elif how == "shm_unknown_offset":
+        md[b"vgi_rpc.shm_offset"] = str(off + 64).encode()
+    buf = io.BytesIO()
+    with ipc.new_stream(buf, schema) as w:
+        w.write_batch(pa.RecordBatch.from_pylist([], schema=schema), custom_metadata=pa.KeyValueMetadata(md))
+    return buf.getvalue()
 
 
 def _input_stream(how: str) -> bytes:
@@ -632,7 +676,10 @@ def run_headerless(case: dict[str, Any]) -> Outcome:
     server decides (run the stream, typed error), exactly one reply stream comes back and the input stream must not be
     read as the next request — the probe that follows gets its own answer."""
     out = Outcome()
-    req = {**case["req"], "m": case["m"]}
+    req = {**case["req"], "m": case["m"], "override": {"init": case.get("init", "ok")}}
+    shm_in = case["input"].startswith("shm_")
+    if shm_in:  # the pointer refers to a segment: the request advertises it (client-owned, attached per connection)
+        req = {**req, "md": {**req["md"], "shm_name": "real", "shm_size": "ok", "shm_off": "absent", "shm_len": "absent"}}
     segs = _Segments()
     live = _Live(case["t"])
     try:
@@ -644,7 +691,14 @@ def run_headerless(case: dict[str, Any]) -> Outcome:
         out.label(f"t={case['t']}", f"method={case['m']}", f"input={case['input']}", f"cols={req['cols']['kind']}",
                   f"rows={req['rows']}", *[f"perturbed={p}" for p in pert])
         before = len(out.violations)
-        _judge_wellframed(live, data + _input_stream(case["input"]), False, case["nonce"], out,
+        follow = _shm_pointer_input(case["input"], case["m"], segs) if shm_in else _input_stream(case["input"])
+        if case.get("warm"):
+            warm = {"m": "probe", "md": {**_MD_DEFAULT, "shm_name": "real", "shm_size": "ok"}, "other": [], "extra": [],
+                    "cols": {"kind": "params"}, "rows": 1}
+            _judge_wellframed(live, _request_bytes(warm, segs), False, case["nonce"] + 7, out, f"warm-up request on {case['t']}", "warmup")
+            out.label("warm_segment")
+        out.label(f"init={case.get('init', 'ok')}")
+        _judge_wellframed(live, data + follow, False, case["nonce"], out,
                           f"request {req!r} + {case['input']} input stream on {case['t']}", "headerless_stream_request")
         out.violations[before:] = [(f"headerless/{key}", what) for key, what in out.violations[before:]]
     finally:
